@@ -321,6 +321,12 @@ func (b *backendLoginSessionHandler) handleServerLoginSuccess() {
 			serverMc.SetAutoReading(false)
 			csh.doSwitch().ThenAccept(func(any) {
 				serverMc.SetAutoReading(true)
+				// The client is now in its config phase for this backend: mark the
+				// backend ready so that the client's config plugin messages reach it
+				// instead of being queued for the previous server forever.
+				if cfg, ok := player.ActiveSessionHandler().(*clientConfigSessionHandler); ok {
+					_ = cfg.flushQueuedPluginMessagesTo(b.serverConn)
+				}
 			})
 		}
 	}
